@@ -134,7 +134,7 @@ def run(chk, repo):
                        "run the wrong kernel", node=call)
     if not shared:
         chk.ok("C04.fresh-kernel", W("LinearFilter.__call__"), "no module-level container is used: every call compiles its own kernel", node=call)
-    schemas = K.quick_schemas()
+    schemas = K.quick_schemas(K.size_thresholds(call))
     from .. import peval as _pe
     _pe.COMPARED.clear()
     Wk, agg, n = kernel_obligations(chk, repo, schemas)
